@@ -44,10 +44,16 @@ def to_array(x):
     return v
 
 
-def make_rdms(x, meas_class):
+def make_rdms(x, meas_class, dtype='float64', scale=None):
+    """dtype: 'float64' | 'int64' | 'int32' (an RDMs object keeps the dtype of a 2-D input; only for
+    stacks without missing entries); scale: the same vectors multiplied by a positive factor"""
     v = to_array(x)
     n_rdm, L = v.shape
     nc = C._n_from_len(L)
+    if scale is not None:
+        v = v * scale
+    if dtype != 'float64':
+        v = v.astype(dtype)
     return RDMs(v.copy(), dissimilarity_measure=MEASURES[meas_class],
                 descriptors={'session': 'S1', 'tags': ['t', 'u']},
                 rdm_descriptors={'subj': [f's{i}' for i in range(n_rdm)],          # list typed
@@ -119,15 +125,36 @@ def descriptors_equal(a, b):
     return True
 
 
-def check_record(rec):
+SCALES = (1e-9, 1e-12, 1e6)
+SCALE_INVARIANT = ('minmax', 'geodesic', 'geotopo')
+INT_DTYPES = ('int64', 'int32')
+
+
+def flavours_for(rec, idx):
+    """float64 always; rotating with the vector index one integer dtype (stacks without missing entries:
+    an RDMs object keeps an integer dtype, the definition does not depend on it) and, for the transforms
+    that map onto [0,1] (hence do not see a positive scaling of the input), one scaled copy"""
+    fl = [('float64', None)]
+    if not any(NAN_MARK in v for v in rec['x']):
+        fl.append((INT_DTYPES[idx % 2], None))
+        if rec['tr']['n'] in SCALE_INVARIANT:
+            fl.append(('float64', SCALES[idx % 3]))
+    return fl
+
+
+def check_record(rec, dtype='float64', scale=None):
     """S -> I for one Transform test vector -> (n_evaluations, [(key, what, case)])"""
     tr, x, mc = rec['tr'], rec['x'], rec['meas']
     n = tr['n']
     name = n + (f"/{tr['m']}" if n == 'rank' else '')
+    if dtype != 'float64':
+        name += '/int-dtype'
+    if scale is not None:
+        name += '/scaled-input'
     cl = CLAUSE[n]
-    src = make_rdms(x, mc)
-    ref = make_rdms(x, mc)          # untouched twin: what the source's descriptors were
-    case0 = {'transform': tr, 'x': x, 'measure': MEASURES[mc]}
+    src = make_rdms(x, mc, dtype, scale)
+    ref = make_rdms(x, mc, dtype, scale)          # untouched twin: what the source's descriptors were
+    case0 = {'transform': tr, 'x': x, 'measure': MEASURES[mc], 'dtype': dtype, 'scale': scale}
     out = []
     try:
         res = call_transform(src, tr)
@@ -141,6 +168,8 @@ def check_record(rec):
         out.append((f'C17/{cl}/{name}/shape', f'{n}: result has shape {got.shape}', case0))
     else:
         tol = {'geotopo': 1e-9}.get(n, 1e-12)
+        if scale is not None:
+            tol = 1e-9          # the scaled inputs are no longer exact integers
         bad = []
         for i, row in enumerate(exp):
             for k, e in enumerate(row):
@@ -154,7 +183,10 @@ def check_record(rec):
                     bad.append((i, k, g, float(e) if not isinstance(e, float) else e))
         if bad:
             key = f'C17/{cl}/{name}/value'
-            if n == 'geodesic':
+            if dtype != 'float64' and np.issubdtype(np.asarray(res.get_vectors()).dtype, np.integer):
+                # the result was cast back to the integer dtype of the source
+                key = f'C17/{cl}/{name}-truncated'
+            elif n == 'geodesic':
                 nz = [[rat(p) for p in row] for row in rec['nz']]
                 if all(_same(float(got[i, k]), nz[i][k], 1e-12) for i in range(len(nz)) for k in range(len(nz[0]))):
                     key = 'C17/e/geodesic/zero-weight-edge-dropped'
@@ -197,24 +229,26 @@ def nontrivial(rec):
     return len(set(v)) < len(v) or min(v) < 0 or NAN_MARK in v
 
 
-def replay_chunk(lines):
+def replay_chunk(args):
+    base, lines = args
     nev = nt = 0
     bad = []
-    for line in lines:
+    for j, line in enumerate(lines):
         rec = json.loads(line)
         if 'tr' not in rec:
             continue
-        n, out = check_record(rec)
-        nev += n
+        for dtype, scale in flavours_for(rec, base + j):
+            n, out = check_record(rec, dtype, scale)
+            nev += n
+            bad.extend(out)
         nt += nontrivial(rec)
-        bad.extend(out)
     return len(lines), nev, nt, bad
 
 
 # ------------------------------------------------------------------------------------------------
 # clause h through the library's own transforms, on the "out" vectors of Compare.tla
 # ------------------------------------------------------------------------------------------------
-def invariance_checks(rec, nc):
+def invariance_checks(rec, nc, variant=0):
     """for a Compare test vector (t = "v"): which library transform must leave which measure
     unchanged.  Returns (n_evaluations, violations).
 
@@ -239,7 +273,10 @@ def invariance_checks(rec, nc):
     nonneg = all(min(v) >= 0 for v in a + b)
     nonconst = all(len(set(v)) > 1 for v in a + b)
     if m in C.RANK_METHODS:
-        todo.append(('rank_transform', lambda r: rr.rank_transform(r), 0.0))
+        # every rank method but 'ordinal' is a strictly increasing map of the value set ('ordinal' breaks
+        # ties by position and is no function of the values)
+        for meth in ('average', 'min', 'max', 'dense'):
+            todo.append((f'rank_transform-{meth}', (lambda meth: lambda r: rr.rank_transform(r, method=meth))(meth), 0.0))
         if nonneg:
             todo.append(('sqrt_transform', lambda r: rr.sqrt_transform(r), 0.0))
             todo.append(('positive_transform', lambda r: rr.positive_transform(r), 0.0))
@@ -256,25 +293,51 @@ def invariance_checks(rec, nc):
         v0 = np.asarray(C.call(m, A0, B0, sigma, 'compare'), dtype=float)
     except Exception:
         return 0, out        # reported by the C03 replay
+    # a second comparison on a subset of the conditions (n_cond >= 4): the RDMs object RETURNED by the
+    # transform is cut down with subset_pattern and compared; an increasing map of the whole RDM is an
+    # increasing map of the part, so the measure of the parts must not change either
+    sel = None
+    if nc >= 4:
+        sel = [[0, 1, 2], [0, 2, 3], [1, 2, 3], [0, 1, 3]][variant % 4]
+        sub = lambda r: r.subset_pattern('index', sel)
+        sa, sb = sub(A0).get_vectors(), sub(B0).get_vectors()
+        if not all(C._admissible(m, v) for v in list(sa) + list(sb)):
+            sel = None
+        else:
+            ssig = None if sigma is None else (sigma[sel] if sigma.ndim == 1 else sigma[np.ix_(sel, sel)])
+            try:
+                w0 = np.asarray(C.call(m, sub(A0), sub(B0), ssig, 'compare'), dtype=float)
+            except Exception:
+                sel = None
     for tname, f, tol in todo:
         for side in (1, 2, 3):          # first, second, both
             if side != 3 and tname in ('positive_transform',):
                 continue
             A1 = f(C.make_rdms(a, 'a')) if side in (1, 3) else A0
             B1 = f(C.make_rdms(b, 'b')) if side in (2, 3) else B0
-            nev += 1
-            try:
-                v1 = np.asarray(C.call(m, A1, B1, sigma, 'compare'), dtype=float)
-            except Exception as e:
-                out.append((f'C17/h/{m}/{tname}/raises/{type(e).__name__}', repr(e)[:200],
-                            {'method': m, 'a': a, 'b': b, 'transform': tname, 'side': side}))
-                continue
-            if v1.shape != v0.shape or not np.all(np.abs(v1 - v0) <= tol):
-                out.append((f'C17/h/{m}/{tname}' + (f'/sigma={sgc}' if m in C.COV_METHODS else ''),
-                            f'{m} changes when {tname} is applied to ' + ('the first', 'the second', 'both')[side - 1]
-                            + ' stack although the theory says it must not',
-                            {'method': m, 'a': a, 'b': b, 'sigma_k': sg, 'transform': tname, 'side': side,
-                             'before': v0.tolist(), 'after': v1.tolist()}))
+            case = {'method': m, 'a': a, 'b': b, 'sigma_k': sg, 'transform': tname, 'side': side}
+            for step in ('whole', 'subset'):
+                if step == 'subset' and (sel is None or side == 2):
+                    continue
+                nev += 1
+                try:
+                    if step == 'whole':
+                        v1, ref = np.asarray(C.call(m, A1, B1, sigma, 'compare'), dtype=float), v0
+                    else:
+                        v1 = np.asarray(C.call(m, A1.subset_pattern('index', sel), B1.subset_pattern('index', sel),
+                                               ssig, 'compare'), dtype=float)
+                        ref = w0
+                except Exception as e:
+                    out.append((f'C17/h/{m}/{tname}/raises/{type(e).__name__}', repr(e)[:200], {**case, 'step': step}))
+                    continue
+                if v1.shape != ref.shape or not np.all(np.abs(v1 - ref) <= tol):
+                    out.append((f'C17/h/{m}/{tname}' + ('/then-subset_pattern' if step == 'subset' else '')
+                                + (f'/sigma={sgc}' if m in C.COV_METHODS else ''),
+                                f'{m} changes when {tname} is applied to ' + ('the first', 'the second', 'both')[side - 1]
+                                + ' stack' + (' and the result is cut down with subset_pattern' if step == 'subset' else '')
+                                + ' although the theory says it must not',
+                                {**case, 'conditions': sel if step == 'subset' else None,
+                                 'before': ref.tolist(), 'after': v1.tolist()}))
     return nev, out
 
 
@@ -283,11 +346,11 @@ def invariance_chunk(args):
     nev = 0
     bad = []
     n = 0
-    for line in lines:
+    for j, line in enumerate(lines):
         rec = json.loads(line)
         if rec.get('t') != 'v':
             continue
-        k, out = invariance_checks(rec, nc)
+        k, out = invariance_checks(rec, nc, variant=j)
         n += 1
         nev += k
         bad.extend(out)
